@@ -220,6 +220,13 @@ class Run:
         self.assumptions = []
         self.exhaustive = None
         self.min_obs = []  # (name, got, need)
+        # witnesses of earlier runs of this check are dropped, so that replays/ shows this run only
+        import glob
+        for f in glob.glob(os.path.join(VERIF, "replays", f"{pid}-*.json")):
+            try:
+                os.remove(f)
+            except OSError:
+                pass
 
     def sample(self, s, cap=6):
         if len(self.samples) < cap:
